@@ -379,9 +379,7 @@ func (p DevUpgradeImageReqPayload) MarshalBinary() ([]byte, error) {
 
 // UnmarshalBinary decodes the payload from a slice of bytes.
 func (p *DevUpgradeImageReqPayload) UnmarshalBinary(data []byte) error {
-	if len(data) != p.Size() {
-		return fmt.Errorf("lorawan/applayer/firmwaremanagement: %d bytes are expected", p.Size())
-	}
+	// the payload is empty, data holds the commands following this one
 	return nil
 }
 
